@@ -161,6 +161,39 @@ def rresize (env : Env) (v : Vec) (newLen : Nat) (value : Id) (o : List Outcome)
       | .ret _ => .ok ⟨dropArg r.vec value, if env.bombs.contains value then .panic true else .ret (), o⟩
       | .panic d => .ok ⟨dropArg r.vec value, .panic d, o⟩
 
+/-- `generic_resize_with` (l.2122-2135) → `extend_trusted` (l.2458-2494): under `SetLenOnDrop`,
+    `end.sub(local_len + 1).write(f()); local_len += 1` -/
+def rresizeWith (env : Env) (v : Vec) (newLen : Nat) (o : List Outcome) : M (Out Unit) :=
+  if newLen > v.len then
+    let n := newLen - v.len
+    match rreserve env v n with
+    | none => .ok ⟨v, .panic false, o⟩
+    | some v =>
+      match rextendWithLoop n v (v.rstart - 1) v.len o with
+      | .error e => .error e
+      | .ok (v, _, localLen, panicked, o) => .ok ⟨setLen v localLen, if panicked then .panic false else .ret (), o⟩
+  else
+    match rtruncate env.bombs v newLen with
+    | .error e => .error e
+    | .ok r => .ok ⟨r.vec, r.exit, o⟩
+
+/-- `pop_if` (l.382-385): `let first = self.first_mut()?; if predicate(first) { self.pop() } else { None }` -/
+def rpopIf (v : Vec) (o : List Outcome) : M (Out (Option Id)) :=
+  if v.len = 0 then .ok ⟨v, .ret none, o⟩
+  else
+    match peek v v.rstart with
+    | .error e => .error e
+    | .ok _ =>
+      match o with
+      | [] => .ok ⟨v, .panic false, []⟩
+      | .panic :: o => .ok ⟨v, .panic false, o⟩
+      | .ret b :: o =>
+        if b ≠ 0 then
+          match rpop v with
+          | .error e => .error e
+          | .ok r => .ok ⟨r.vec, r.exit, o⟩
+        else .ok ⟨v, .ret none, o⟩
+
 /-- `generic_append(other)` (l.2196-2211): `other` is copied IN FRONT of the elements -/
 def rappend (env : Env) (v other : Vec) : M (Out Unit × Vec) :=
   let n := other.len
